@@ -20,6 +20,28 @@ floating-point inputs) or plain counting:
   have inconsistent lengths or d cannot be recovered; the maps reject inconsistent a / b / n.
 * cdf_getter: right-continuous step function count(x_i <= t)/len, at / between / below / above the sample,
   ties, scalar and array argument, argument untouched.
+
+Parameter-coverage extension (every parameter / documented input form of the anchored functions):
+* C18.large_n.maps: grids of 257 .. 2^40 + 1 nodes (past 8 / 16 / 32-bit integers): endpoints, exact nodes, range,
+  monotonicity, round trip and nearest node at boundary / middle / random indices (all indices up to n = 2^17 + 1);
+  conditioning rule cond(box) (n-1) <= 1e13 (uniform), cond(box) (n-1)^2 <= 1e13 (Chebyshev, node spacing at the ends).
+* C18.multidim.mixed: d = 1..12 (100 thorough) with DIFFERENT a, b, n per dimension (lists / ndarrays / mixed, n as
+  floats), m = 1, m = d, m > d rows, inside / boundary / outside points: every entry of ind_to_poi, poi_to_ind,
+  poi_scale (all three kinds) against the exact reference of its own column.
+* C18.options.dtypes: int / int-list / int-ndarray / float32-ndarray / NumPy-scalar bounds, float / int16 / int32 n,
+  indices of dtype int8 .. uint64, integer-valued points and limits: bitwise equal to the float64 call.
+* C18.grid_flat.large: modes >= 256, >= 2^16 rows, many modes, size-1 modes, narrow integer ndarray argument; every row.
+* C18.cdf_getter.forms: integer / float32 / constant / two-valued / sorted / reverse-sorted samples, scales 1e-300 ..
+  1e300, large samples; Python / NumPy scalar, one-element and unsorted array queries.
+* C18.cdf_confidence.band: the documented Dvoretzky-Kiefer-Wolfowitz band (default and explicit alpha), clipping.
+* more cases for the older clauses: boxes at the edge of the conditioning rule (offset 1e8 width 1/16, offset 1e300),
+  boxes with a zero bound; limits of magnitude 1e-300 .. 1e100, with an offset, integer, negative; points just inside
+  the box.  The map onto given limits is evaluated by the library through products of bounds and limits: cases whose
+  products overflow (or underflow so much that the target interval is not resolved) return SKIP (`_lim_ok`), gradual
+  underflow enters the tolerance (`_lim_under`); the exact-boundary requirement for outside points applies once the
+  exact image is outside by more than the tolerance.
+* Disabled DOUBTFUL cases (subnormal box widths, over- / underflowing products, cancellation of offset limits on offset
+  boxes) are documented above `cases`.
 """
 import itertools
 import math
@@ -34,7 +56,14 @@ BUDGET = (100, 600)
 BOUNDS = ('boxes: 12 (quick) / 30 (thorough) with magnitudes 1e-300..1e300, offsets up to 1e9 box widths (conditioning rule (|a|+|b|)/(b-a) <= 1e10); n = 2..40 / '
           '2..64 exhaustive indices, d = 1..3; nearest-node: all cell boundaries +- {0, 1e-9, 1e-3, 0.25} cells + 64 '
           'random points per case; grid_flat: all 340 shapes with <= 4 modes of size <= 4; cdf: samples of 1..40 '
-          'values with ties')
+          'values with ties; extension: +6 / +14 boxes at the edge of the conditioning rule or with a zero bound '
+          '(n = 2, 3, 17, 40), limits 1e-300..1e100 / offset / integer; large grids n = 257..2^40+1 (18 quick / 858 '
+          'thorough, all indices up to n = 2^17+1, else ~60 indices + ~120 points); per-dimension distinct (a, b, n) '
+          'with d = 1..12 (quick) / 1..100 (thorough), m in {1, d, 7}, list / ndarray / mixed options; option, index '
+          'and point dtypes int8..uint64 / float32 on 5 integer boxes, n = 2..300 (70000 thorough); grid_flat with '
+          'modes up to 70000 and up to 2^18 (quick 2^16) rows, every row; cdf sample forms (int, float32, constant, '
+          'two-valued, sorted, scales 1e-300..1e300, m up to 4096 / 100000); DKW band m = 1..1000 / 100000, '
+          'alpha = default, 1e-300..1')
 
 EPS = np.finfo(float).eps
 
@@ -44,6 +73,13 @@ BOXES_MORE = [(1e6, 1e6 + 1e-3), (-2.0, -1.0), (0.0, 1e-9), (-1e9 - 2.5, -1e9), 
               (0.0, 2 * math.pi), (1e100, 3e100), (-5e-324 * 2 ** 60, 5e-324 * 2 ** 61), (0.3, 0.30000001),
               (-1.0, 1e9), (-1e-12, 1e12), (7.0, 7.5), (2.0 ** 20, 2.0 ** 20 + 3), (-0.7, 0.9), (1e-8, 1.0),
               (-123.0, -1e-5), (1.0 / 3, 2.0 / 3)]
+
+
+# boxes at the edge of the conditioning rule (offset 1e8 .. 1e300 with a narrow width), with a zero bound
+BOXES_EXTRA = [(1e8, 1e8 + 0.0625), (-1e8 - 1.0, -1e8), (1.0, 1.00000001), (0.0, 1e-300), (-1e-300, 0.0),
+               (1e300, 1.0000001e300)]
+BOXES_EXTRA_MORE = [(-1e300, -0.9999999e300), (1e8, 1e8 + 1.0), (2.0 ** 52, 2.0 ** 52 + 2.0 ** 20), (0.0, 1e300),
+                    (-2.0 ** -1000, 2.0 ** -1001), (1e-8, 1e-8 + 1e-16), (-1e16, 1.0), (4.0e-308, 9.0e-308)]
 
 
 def _boxes(tier):
@@ -209,16 +245,40 @@ def nearest(a, b, n, kind, seed):
     return PASS
 
 
+def _lim_prods(a, b, lim):
+    m = max(abs(a), abs(b), b - a)
+    return [abs(Fr(u) * Fr(v)) for u in (a, b, 3 * m) for v in (float(lim[0]), float(lim[1]), float(lim[1]) - float(lim[0]))]
+
+
+def _lim_under(a, b, lim):
+    """absolute error of the map onto given limits that is caused by gradual underflow of the products of box bounds
+    and limits through which it is evaluated (0.0 if every product is zero or a normal double)"""
+    if all(p == 0 or p >= Fr(1e-306) for p in _lim_prods(a, b, lim)):
+        return 0.0
+    return 4 * 5e-324 / (b - a)
+
+
+def _lim_ok(a, b, lim):
+    """conditioning rule for given limits: no product of a box bound and a limit overflows, and the error caused by
+    underflowing products stays below 1e-6 of the target interval"""
+    return all(p <= Fr(1e307) for p in _lim_prods(a, b, lim)) \
+        and _lim_under(a, b, lim) <= 1e-6 * (float(lim[1]) - float(lim[0]))
+
+
 @clause('C18.poi_scale.kinds', funcs=('grid.poi_scale',))
 def poi_scale_kinds(a, b, lim, seed):
     """uni -> [0,1], cheb -> [-1,1], [a_new, b_new] -> these limits: exact affine map within a scale-aware
     tolerance, clipped (never outside the target interval, outside points exactly on its boundary)."""
     if not _cond(a, b):
         return SKIP('box not resolvable')
+    if not _lim_ok(a, b, lim):
+        return SKIP('products of box bounds and limits leave the normal double range')
+    under = _lim_under(a, b, lim)
     g = gen.rng('C18s', a, b, lim, seed)
     w = b - a
     xs = np.array([a, b, (a + b) / 2, a - w, b + w, a - 1e-3 * w, b + 1e-3 * w] + list(g.uniform(a, b, size=24))
-                  + list(a + w * g.uniform(-1, 2, size=8))).reshape(-1, 1)
+                  + list(a + w * g.uniform(-1, 2, size=8))
+                  + [a + 1e-6 * w, b - 1e-6 * w, a + 1e-10 * w, b - 1e-10 * w]).reshape(-1, 1)     # just inside the box
     for kind, (lo, hi) in (('uni', (0.0, 1.0)), ('cheb', (-1.0, 1.0)), (list(lim), (float(lim[0]), float(lim[1])))):
         S = teneva.poi_scale(xs, a, b, kind)
         if S.shape != xs.shape or S.dtype.kind != 'f':
@@ -227,17 +287,21 @@ def poi_scale_kinds(a, b, lim, seed):
             return FAIL(f'{kind}: result [{S.min()!r}, {S.max()!r}] leaves [{lo}, {hi}]')
         for x, s in zip(xs[:, 0], S[:, 0]):
             fx, fa, fb = Fr(float(x)), Fr(a), Fr(b)
-            ex = Fr(lo) + (fx - fa) / (fb - fa) * (Fr(hi) - Fr(lo))
-            ex = min(max(ex, Fr(lo)), Fr(hi))
+            exu = Fr(lo) + (fx - fa) / (fb - fa) * (Fr(hi) - Fr(lo))
+            ex = min(max(exu, Fr(lo)), Fr(hi))
             if isinstance(kind, list):
                 scale = (abs(x) * abs(lo - hi) + abs(a * hi) + abs(b * lo)) / w
             elif kind == 'cheb':
                 scale = (abs(x) + abs(a) + abs(b)) / w
             else:
                 scale = max(abs(float(ex)), EPS)
-            if not abs(s - float(ex)) <= 16 * EPS * scale + 1e-300:
+            tol = 16 * EPS * scale + 1e-300 + (under if isinstance(kind, list) else 0.0)
+            if not abs(s - float(ex)) <= tol:
                 return FAIL(f'{kind}: point {x!r} -> {s!r}, exact {float(ex)!r} (scale {scale:.3e})')
-            if (x <= a - 1e-3 * w and s != lo) or (x >= b + 1e-3 * w and s != hi):
+            # outside points sit exactly on the boundary (as soon as the exact image is outside by more than the
+            # rounding of the evaluation, which matters for offset limits on offset boxes only)
+            if (x <= a - 1e-3 * w and exu < Fr(lo) - Fr(tol) and s != lo) \
+                    or (x >= b + 1e-3 * w and exu > Fr(hi) + Fr(tol) and s != hi):
                 return FAIL(f'{kind}: outside point {x!r} -> {s!r} not on the boundary of [{lo}, {hi}]')
     try:
         teneva.poi_scale(xs, a, b, 'nonsense-kind')
@@ -461,6 +525,414 @@ def cdf_step(m, ties, seed, as_list):
     return PASS
 
 
+# ---------------------------------------------------------------------------------------------------------------------
+# parameter-coverage extension: large grids, per-dimension options with distinct values, option / index / point
+# dtypes, large flat grids, sample forms of the empirical CDF, the confidence band
+# ---------------------------------------------------------------------------------------------------------------------
+
+def _cond_n(a, b, n, kind):
+    """conditioning rule for large grids: neighbouring nodes must stay resolvable after the scaling of the point
+    (uniform: spacing (b-a)/(n-1); Chebyshev: spacing (b-a)/2 (pi/(n-1))^2 / 2 at the ends of the box)"""
+    if not _cond(a, b):
+        return False
+    c = (abs(a) + abs(b)) / (b - a)
+    return c * (n - 1) <= 1e13 if kind == 'uni' else c * float(n - 1) ** 2 <= 1e13
+
+
+def _node_ref(i, a, b, n, kind):
+    """exact node (float value, error bound) for any grid size (Python integers / Fractions; argument reduction of
+    the cosine to [0, pi/2])"""
+    if kind == 'uni':
+        return float(Fr(a) + Fr(i, n - 1) * (Fr(b) - Fr(a))), 8 * EPS * (abs(a) + abs(b))
+    if 2 * i == n - 1:
+        c = 0.0
+    elif 2 * i < n - 1:
+        c = math.cos(math.pi * float(Fr(i, n - 1)))
+    else:
+        c = -math.cos(math.pi * float(Fr(n - 1 - i, n - 1)))
+    return c * (b - a) / 2 + (b + a) / 2, 8 * EPS * (abs(a) + abs(b))
+
+
+def _scale_msg(x, s, a, b, lo, hi, how, under=0.0):
+    """poi_scale reference for one point: exact affine map onto [lo, hi] with clipping; how = 'uni' | 'cheb' | 'lim'
+    selects the scale of the tolerance (rounding model of a direct evaluation); under = _lim_under(a, b, limits)."""
+    w = b - a
+    exu = Fr(lo) + (Fr(x) - Fr(a)) / (Fr(b) - Fr(a)) * (Fr(hi) - Fr(lo))
+    ex = float(min(max(exu, Fr(lo)), Fr(hi)))
+    if how == 'lim':
+        scale = (abs(x) * abs(lo - hi) + abs(a * hi) + abs(b * lo)) / w
+    elif how == 'cheb':
+        scale = (abs(x) + abs(a) + abs(b)) / w
+    else:
+        scale = max(abs(ex), EPS)
+    if not (lo <= s <= hi):
+        return f'point {x!r} -> {s!r} outside [{lo}, {hi}]'
+    tol = 16 * EPS * scale + 1e-300 + (under if how == 'lim' else 0.0)
+    if not abs(s - ex) <= tol:
+        return f'point {x!r} -> {s!r}, exact {ex!r} (scale {scale:.3e})'
+    if (x <= a - 1e-3 * w and exu < Fr(lo) - Fr(tol) and s != lo) or (x >= b + 1e-3 * w and exu > Fr(hi) + Fr(tol) and s != hi):
+        return f'outside point {x!r} -> {s!r} not on the boundary of [{lo}, {hi}]'
+    return None
+
+
+@clause('C18.large_n.maps', funcs=('grid.ind_to_poi', 'grid.poi_to_ind', 'grid.poi_scale'))
+def large_n_maps(a, b, n, kind, seed):
+    """Large grids (n up to 2^40 + 1, beyond 32-bit integers): endpoints, exact node values, range, strict
+    monotonicity, round trip and nearest node on boundary / middle / random indices and cells (all indices when
+    n <= 2^17 + 1); integer result dtype wide enough for n."""
+    if not _cond_n(a, b, n, kind):
+        return SKIP('grid not resolvable')
+    g = gen.rng('C18L', a, b, n, kind, seed)
+    idx = {0, 1, 2, 3, n - 4, n - 3, n - 2, n - 1, n // 2 - 1, n // 2, n // 2 + 1, (n - 1) // 3, 2 * (n - 1) // 3,
+           255, 256, 257, 65535, 65536, 2 ** 31 - 1, 2 ** 31, 2 ** 32, 2 ** 32 + 1}
+    idx |= {int(v) for v in g.integers(0, n, size=40)}
+    idx = sorted(i for i in idx if 0 <= i <= n - 1)
+    I = np.array(idx, dtype=np.int64).reshape(-1, 1)
+    X = teneva.ind_to_poi(I, a, b, n, kind)
+    if X.shape != I.shape or X.dtype.kind != 'f':
+        return FAIL(f'shape {X.shape} dtype {X.dtype}')
+    x = X[:, 0]
+    u = 2 * _ulp(a, b)
+    first, last = (a, b) if kind == 'uni' else (b, a)
+    if not (abs(x[0] - first) <= u and abs(x[-1] - last) <= u):
+        return FAIL(f'endpoints {x[0]!r}, {x[-1]!r}, expected {first!r}, {last!r}')
+    if not (x.min() >= a - u and x.max() <= b + u):
+        return FAIL(f'range [{x.min()!r}, {x.max()!r}] leaves [{a!r}, {b!r}]')
+    for i, v in zip(idx, x):
+        w_, tol = _node_ref(i, a, b, n, kind)
+        if not abs(v - w_) <= tol:
+            return FAIL(f'node {i}: {v!r} vs exact {w_!r}')
+    dx = np.diff(x)
+    if not (np.all(dx > 0) if kind == 'uni' else np.all(dx < 0)):
+        return FAIL('sampled nodes not strictly monotone')
+    J = teneva.poi_to_ind(X, a, b, n, kind)
+    if J.shape != I.shape or J.dtype.kind not in 'iu':
+        return FAIL(f'shape {J.shape} dtype {J.dtype}')
+    if not np.array_equal(I, J):
+        k = int(np.flatnonzero(I[:, 0] != J[:, 0])[0])
+        return FAIL(f'index {idx[k]} -> point {x[k]!r} -> index {int(J[k, 0])}')
+    for k in (0, len(idx) // 2, len(idx) - 1):                # single-point form, list of a Python integer
+        x1 = teneva.ind_to_poi([idx[k]], a, b, n, kind)
+        j1 = teneva.poi_to_ind(x1, a, b, n, kind)
+        if x1.shape != (1,) or j1.shape != (1,) or x1[0] != x[k] or int(j1[0]) != idx[k]:
+            return FAIL(f'single point form: index {idx[k]} -> {x1} -> {j1}')
+    if n <= 2 ** 17 + 1:                                       # every index: round trip, range, monotonicity
+        A = np.arange(n).reshape(-1, 1)
+        XA = teneva.ind_to_poi(A, a, b, n, kind)
+        JA = teneva.poi_to_ind(XA, a, b, n, kind)
+        if not np.array_equal(A, JA):
+            k = int(np.flatnonzero(A[:, 0] != JA[:, 0])[0])
+            return FAIL(f'index {k} -> point {XA[k, 0]!r} -> index {int(JA[k, 0])}')
+        dx = np.diff(XA[:, 0])
+        if not (np.all(dx > 0) if kind == 'uni' else np.all(dx < 0)):
+            return FAIL('nodes not strictly monotone')
+        if not (XA.min() >= a - u and XA.max() <= b + u):
+            return FAIL(f'range [{XA.min()!r}, {XA.max()!r}] leaves [{a!r}, {b!r}]')
+        t = np.arange(n) / (n - 1)                             # all nodes against the direct definition
+        ref = (1 - t) * a + t * b if kind == 'uni' else np.cos(np.pi * t) * (b - a) / 2 + (b + a) / 2
+        err = np.abs(XA[:, 0] - ref)
+        if not np.all(err <= 8 * EPS * (abs(a) + abs(b))):
+            k = int(np.argmax(err))
+            return FAIL(f'node {k}: {XA[k, 0]!r} vs direct formula {ref[k]!r}')
+    w = b - a
+    pts = [a, b, float(np.nextafter(a, -np.inf)), float(np.nextafter(b, np.inf)), a - w, b + w, (a + b) / 2]
+    cells = [k for k in idx if k < n - 1]
+    cells = cells[:8] + cells[len(cells) // 2 - 3: len(cells) // 2 + 3] + cells[-8:]
+    for k in cells:
+        for off in (0.0, 1e-3, -1e-3, 0.25, -0.25):
+            t = k + 0.5 + off
+            if kind == 'uni':
+                pts.append(a + t / (n - 1) * w)
+            else:
+                pts.append(math.cos(math.pi * t / (n - 1)) * w / 2 + (a + b) / 2)
+    pts += list(a + w * g.uniform(-0.2, 1.2, size=12))
+    P = np.array([float(p) for p in pts if math.isfinite(p)]).reshape(-1, 1)
+    K = teneva.poi_to_ind(P, a, b, n, kind)
+    if K.shape != P.shape or K.dtype.kind not in 'iu':
+        return FAIL(f'shape {K.shape} dtype {K.dtype}')
+    for p, k in zip(P[:, 0], K[:, 0]):
+        msg = _check_nearest(float(p), int(k), a, b, n, kind)
+        if msg:
+            return FAIL(msg)
+    return PASS
+
+
+@clause('C18.multidim.mixed', funcs=('grid.ind_to_poi', 'grid.poi_to_ind', 'grid.poi_scale', 'grid.grid_prep_opts',
+                                      'grid.grid_prep_opt'))
+def multidim_mixed(boxes, n, kind, m, form, seed):
+    """d-dimensional batches (m = 1, m = d, m > d rows) with DIFFERENT a, b, n in every dimension given as lists /
+    ndarrays / a mixture: every entry against the exact one-dimensional reference of its own column — node values,
+    nearest node with clamping for inside / boundary / outside points, round trip, poi_scale onto [0,1], [-1,1] and
+    given limits; single point (1-D list) == first row."""
+    a = [float(x[0]) for x in boxes]
+    b = [float(x[1]) for x in boxes]
+    d = len(n)
+    if not all(_cond_n(x, y, k, kind) for x, y, k in zip(a, b, n)):
+        return SKIP('grid not resolvable')
+    g = gen.rng('C18M', boxes, n, kind, m, form, seed)
+    if form == 'list':
+        A, B, N = list(a), list(b), list(n)
+    elif form == 'array':
+        A, B, N = np.array(a), np.array(b), np.array(n)
+    else:
+        A, B, N = np.array(a), list(b), [float(k) for k in n]
+    I = np.stack([g.integers(0, k, size=m) for k in n], axis=1)
+    I[0] = [(0 if (k % 2) else n[k] - 1) for k in range(d)]        # boundary indices in the first row
+    U = g.uniform(-0.3, 1.3, size=(m, d))
+    X = np.array(a) + (np.array(b) - np.array(a)) * U
+    for k in range(d):                                              # boundary / far outside points, all columns differ
+        r = (k + int(seed)) % m
+        X[r, k] = [a[k], b[k], a[k] - 3 * (b[k] - a[k]), b[k] + 3 * (b[k] - a[k]),
+                   float(np.nextafter(a[k], -np.inf)), float(np.nextafter(b[k], np.inf))][k % 6]
+    X = np.where(np.isfinite(X), X, np.array(a))
+    snap_i, snap_x = I.copy(), X.copy()
+    P = teneva.ind_to_poi(I, A, B, N, kind)
+    J = teneva.poi_to_ind(X, A, B, N, kind)
+    R = teneva.poi_to_ind(P, A, B, N, kind)
+    if not (np.array_equal(I, snap_i) and np.array_equal(X, snap_x)):
+        return FAIL('argument modified')
+    if P.shape != (m, d) or J.shape != (m, d) or P.dtype.kind != 'f' or J.dtype.kind not in 'iu':
+        return FAIL(f'shapes {P.shape} {J.shape} dtypes {P.dtype} {J.dtype}')
+    if not np.array_equal(R, I):
+        r, k = [int(v[0]) for v in np.nonzero(R != I)]
+        return FAIL(f'round trip: row {r} column {k}: {int(I[r, k])} -> {P[r, k]!r} -> {int(R[r, k])}')
+    for r in range(m):
+        for k in range(d):
+            w_, tol = _node_ref(int(I[r, k]), a[k], b[k], n[k], kind)
+            if not abs(P[r, k] - w_) <= tol:
+                return FAIL(f'ind_to_poi row {r} column {k}: index {int(I[r, k])} -> {P[r, k]!r}, exact {w_!r} for '
+                            f'(a, b, n) = ({a[k]!r}, {b[k]!r}, {n[k]})')
+            msg = _check_nearest(float(X[r, k]), int(J[r, k]), a[k], b[k], n[k], kind)
+            if msg:
+                return FAIL(f'poi_to_ind row {r} column {k} (a, b, n) = ({a[k]!r}, {b[k]!r}, {n[k]}): {msg}')
+    lim = [float(g.normal()), float(g.normal()) + 4.0]
+    for how, arg, (lo, hi) in (('uni', 'uni', (0.0, 1.0)), ('cheb', 'cheb', (-1.0, 1.0)), ('lim', lim, tuple(lim))):
+        S = teneva.poi_scale(X, A, B, arg)
+        if S.shape != (m, d) or S.dtype.kind != 'f':
+            return FAIL(f'poi_scale {how}: shape {S.shape} dtype {S.dtype}')
+        ok = [how != 'lim' or _lim_ok(a[k], b[k], lim) for k in range(d)]
+        under = [_lim_under(a[k], b[k], lim) if how == 'lim' else 0.0 for k in range(d)]
+        for r in range(m):
+            for k in range(d):
+                if not ok[k]:
+                    continue
+                msg = _scale_msg(float(X[r, k]), float(S[r, k]), a[k], b[k], lo, hi, how, under[k])
+                if msg:
+                    return FAIL(f'poi_scale {how} row {r} column {k} (a, b) = ({a[k]!r}, {b[k]!r}): {msg}')
+        s1 = teneva.poi_scale(X[0].tolist(), A, B, arg)
+        if s1.shape != (d,) or not np.array_equal(s1, S[0]):
+            return FAIL(f'poi_scale {how}: single point differs from batch row')
+    p1 = teneva.ind_to_poi(I[0].tolist(), A, B, N, kind)
+    j1 = teneva.poi_to_ind(X[0].tolist(), A, B, N, kind)
+    if p1.shape != (d,) or j1.shape != (d,) or not np.array_equal(p1, P[0]) or not np.array_equal(j1, J[0]):
+        return FAIL('single point (list) differs from batch row')
+    return PASS
+
+
+@clause('C18.options.dtypes', funcs=('grid.ind_to_poi', 'grid.poi_to_ind', 'grid.poi_scale', 'grid.grid_prep_opt',
+                                      'grid.grid_prep_opts'))
+def options_dtypes(a, b, n, d, kind, seed):
+    """Integer-valued bounds given as Python ints / int lists / int and float32 ndarrays / NumPy floats, n as float /
+    float list / int32 ndarray, indices of narrow integer dtypes, integer-valued points given as ints, integer
+    limits: all bitwise equal to the all-float64 call."""
+    g = gen.rng('C18t', a, b, n, d, kind, seed)
+    fa, fb = float(a), float(b)
+    m = 6
+    I = g.integers(0, n, size=(m, d))
+    I[0, :] = n - 1
+    X = fa + (fb - fa) * g.uniform(-0.2, 1.2, size=(m, d))
+    Xi = g.integers(int(a) - 2, int(b) + 3, size=(m, d))
+    ref = (teneva.ind_to_poi(I, fa, fb, n, kind), teneva.poi_to_ind(X, fa, fb, n, kind),
+           teneva.poi_scale(X, fa, fb, kind), teneva.poi_scale(X, fa, fb, [-2.0, 3.0]))
+    forms = [(int(a), int(b), n), ([int(a)] * d, [int(b)] * d, [n] * d),
+             (np.full(d, int(a)), np.full(d, int(b)), np.full(d, n, dtype=np.int32)),
+             (np.float64(a), np.float64(b), float(n)), (fa, fb, np.full(d, float(n))),
+             (np.full(d, a, dtype=np.float32), np.full(d, b, dtype=np.float32), [float(n)] * d),
+             (int(a), [fb] * d, np.full(d, n, dtype=np.int16 if n < 2 ** 15 else np.int64))]
+    for fa_, fb_, fn_ in forms:
+        got = (teneva.ind_to_poi(I, fa_, fb_, fn_, kind), teneva.poi_to_ind(X, fa_, fb_, fn_, kind),
+               teneva.poi_scale(X, fa_, fb_, kind), teneva.poi_scale(X, fa_, fb_, [-2, 3]))
+        for nm, u, v in zip(('ind_to_poi', 'poi_to_ind', 'poi_scale', 'poi_scale limits'), ref, got):
+            if u.shape != v.shape or u.dtype.kind != v.dtype.kind or not np.array_equal(u, v):
+                return FAIL(f'{nm}: options {(type(fa_).__name__, type(fb_).__name__, type(fn_).__name__)} '
+                            f'({getattr(fa_, "dtype", "")}, {getattr(fn_, "dtype", "")}) differ from float64 scalars')
+    dts = [np.int32, np.uint64, np.uint32] + [dt for dt in (np.int16, np.uint16, np.uint8, np.int8) if n - 1 <= np.iinfo(dt).max]
+    for dt in dts:
+        P = teneva.ind_to_poi(I.astype(dt), fa, fb, n, kind)
+        if P.dtype.kind != 'f' or not np.array_equal(P, ref[0]):
+            k = int(np.flatnonzero((P != ref[0]).any(axis=1))[0]) if P.shape == ref[0].shape else -1
+            return FAIL(f'ind_to_poi: indices of dtype {np.dtype(dt).name} differ from int64 indices (row {k}: '
+                        f'{I[k].tolist()} -> {P[k].tolist() if k >= 0 else P.shape})')
+    Jf = teneva.poi_to_ind(Xi.astype(float), fa, fb, n, kind)
+    Sf = teneva.poi_scale(Xi.astype(float), fa, fb, kind)
+    for nm, arg in (('int64 ndarray', Xi), ('int32 ndarray', Xi.astype(np.int32)), ('list of ints', Xi.tolist())):
+        Ji = teneva.poi_to_ind(arg, a, b, n, kind)
+        Si = teneva.poi_scale(arg, a, b, kind)
+        if Ji.dtype.kind not in 'iu' or Si.dtype.kind != 'f' or not np.array_equal(Ji, Jf) or not np.array_equal(Si, Sf):
+            return FAIL(f'integer-valued points as {nm} differ from the float64 points')
+    for r in range(m):                      # integer points against the exact reference
+        for k in range(d):
+            msg = _check_nearest(float(Xi[r, k]), int(Jf[r, k]), fa, fb, n, kind)
+            if msg:
+                return FAIL(msg)
+    return PASS
+
+
+@clause('C18.grid_flat.large', funcs=('grid.grid_flat',))
+def grid_flat_large(n, form):
+    """Large modes (>= 256, >= 2^16 elements), many modes, modes of size 1 in between: EVERY row against the closed
+    form (j // prod(n[:k])) % n[k]; list / int64 / int32 / int16 ndarray argument; integer result wide enough."""
+    arg = list(n) if form == 'list' else np.array(n, dtype=form)
+    I = teneva.grid_flat(arg)
+    d, N = len(n), math.prod(n)
+    if not isinstance(I, np.ndarray) or I.shape != (N, d) or I.dtype.kind not in 'iu':
+        return FAIL(f'shape {getattr(I, "shape", None)} dtype {getattr(I, "dtype", None)}')
+    j = np.arange(N, dtype=np.int64)
+    stride = 1
+    for k in range(d):
+        want = (j // stride) % n[k]
+        if not np.array_equal(I[:, k].astype(np.int64), want) or I[:, k].min() < 0:
+            r = int(np.flatnonzero(I[:, k].astype(np.int64) != want)[0])
+            return FAIL(f'row {r} column {k}: {int(I[r, k])}, first-index-fastest order gives {int(want[r])}')
+        stride *= n[k]
+    return PASS
+
+
+@clause('C18.cdf_getter.forms', funcs=('stat.cdf_getter',))
+def cdf_forms(m, form, scale, seed):
+    """Sample forms: integer list / integer ndarray / float32 ndarray, all values equal, two distinct values,
+    ascending / descending order, tiny and huge scales, large samples; query forms: Python float, NumPy scalar,
+    one-element array, unsorted array with repeats.  cdf(t) == count(x_i <= t)/m exactly as counted."""
+    g = gen.rng('C18f', m, form, scale, seed)
+    if form in ('int_list', 'int_array'):
+        x = g.integers(-4, 5, size=m)
+        arg = x.tolist() if form == 'int_list' else x.copy()
+    elif form == 'float32':
+        x = (g.normal(size=m) * scale).astype(np.float32)
+        arg = x.copy()
+    elif form == 'all_equal':
+        x = np.full(m, float(g.normal()) * scale)
+        arg = x.copy()
+    elif form == 'two_values':
+        x = np.where(g.uniform(size=m) < 0.3, -scale, scale * (1 + EPS))
+        arg = x.tolist()
+    else:
+        x = g.normal(size=m) * scale
+        x = np.sort(x) if form == 'ascending' else np.sort(x)[::-1].copy() if form == 'descending' else x
+        arg = x.copy()
+    snap = gen.snapshot(arg)
+    cdf = teneva.cdf_getter(arg)
+    if gen.snapshot(arg) != snap:
+        return FAIL('sample modified (sorted in place?)')
+    x64 = np.asarray(x, dtype=float)
+    xs = np.sort(x64)
+    if m > 64:
+        xs_q = xs[np.unique(np.r_[0, 1, m - 2, m - 1, g.integers(0, m, size=48)])]
+    else:
+        xs_q = xs
+    big = float(np.finfo(float).max)
+    ts = np.r_[xs_q, np.nextafter(xs_q, np.inf), np.nextafter(xs_q, -np.inf), xs_q[:-1] / 2 + xs_q[1:] / 2,
+               xs[0] - abs(xs[0]) - scale, xs[-1] + abs(xs[-1]) + scale, -big, big, -np.inf, np.inf, 0.0]
+    ts = ts[g.permutation(len(ts))]
+    ts = np.r_[ts, ts[:5]]                                        # unsorted, with repeats
+    want = np.array([np.count_nonzero(x64 <= t) / m for t in ts])
+    got = cdf(ts)
+    if not isinstance(got, np.ndarray) or got.shape != ts.shape or got.dtype.kind != 'f':
+        return FAIL(f'array input -> {type(got).__name__} shape {np.shape(got)}')
+    if not np.all(np.abs(got - want) <= 2 * EPS):
+        k = int(np.argmax(~(np.abs(got - want) <= 2 * EPS)))
+        return FAIL(f't={ts[k]!r}: cdf {got[k]!r}, count(x<=t)/m = {want[k]!r}')
+    for k in range(0, len(ts), max(1, len(ts) // 12)):
+        for q in (float(ts[k]), np.float64(ts[k])):
+            s = cdf(q)
+            if np.ndim(s) != 0 or not abs(float(s) - want[k]) <= 2 * EPS:
+                return FAIL(f'scalar input t={q!r} ({type(q).__name__}): {s!r} vs {want[k]!r}')
+        s = cdf(ts[k:k + 1])
+        if np.shape(s) != (1,) or not abs(float(s[0]) - want[k]) <= 2 * EPS:
+            return FAIL(f'one-element array input t={ts[k]!r}: {s!r} vs {want[k]!r}')
+    if not (cdf(xs[-1]) == 1 and cdf(float(np.nextafter(xs[0], -np.inf))) == 0):
+        return FAIL('cdf(max) != 1 or cdf(below min) != 0')
+    return PASS
+
+
+@clause('C18.cdf_confidence.band', funcs=('stat.cdf_confidence',))
+def cdf_band(m, alpha, kind, seed):
+    """Dvoretzky-Kiefer-Wolfowitz band as documented: lower / upper = clip(x -+ eps, 0, 1) with
+    eps = sqrt(ln(2/alpha) / (2 m)), alpha = 0.05 by default (alpha = 0 in the params means: default);
+    lower <= x <= upper inside [0, 1]; the argument is not modified."""
+    g = gen.rng('C18b', m, alpha, kind, seed)
+    if kind == 'cdf':
+        x = np.arange(1, m + 1) / m
+    elif kind == 'edge':
+        x = np.sort(np.r_[0.0, 1.0, g.uniform(size=max(0, m - 2))])[:m]
+    else:
+        x = np.sort(g.uniform(size=m))
+    al = 0.05 if alpha == 0 else alpha
+    eps = math.sqrt(math.log(2.0 / al) / (2 * m))
+    snap = x.copy()
+    r = teneva.cdf_confidence(x) if alpha == 0 else teneva.cdf_confidence(x, alpha)
+    if not np.array_equal(x, snap):
+        return FAIL('argument modified')
+    if not (isinstance(r, tuple) and len(r) == 2):
+        return FAIL(f'result {type(r).__name__}')
+    lo, hi = r
+    if np.shape(lo) != (m,) or np.shape(hi) != (m,):
+        return FAIL(f'shapes {np.shape(lo)} {np.shape(hi)}')
+    wl = np.array([min(max(v - eps, 0.0), 1.0) for v in x])
+    wh = np.array([min(max(v + eps, 0.0), 1.0) for v in x])
+    if not (np.all(np.abs(lo - wl) <= 4 * EPS) and np.all(np.abs(hi - wh) <= 4 * EPS)):
+        k = int(np.argmax(~((np.abs(lo - wl) <= 4 * EPS) & (np.abs(hi - wh) <= 4 * EPS))))
+        return FAIL(f'x={x[k]!r}: band [{lo[k]!r}, {hi[k]!r}], expected [{wl[k]!r}, {wh[k]!r}] (eps {eps!r})')
+    if not (np.all(lo >= 0) and np.all(hi <= 1) and np.all(lo <= x) and np.all(x <= hi)):
+        return FAIL('band leaves [0, 1] or does not contain the empirical CDF')
+    if alpha != 0:
+        r2 = teneva.cdf_confidence(x, alpha=alpha)
+        if not (np.array_equal(r2[0], lo) and np.array_equal(r2[1], hi)):
+            return FAIL('keyword alpha differs from positional alpha')
+    return PASS
+
+
+# ---------------------------------------------------------------------------------------------------------------------
+# DOUBTFUL — disabled (not registered, not yielded).  Inputs inside the quantifier ("any magnitude and offset", "given
+# limits") for which the pinned tree returns wrong values, but only through over- / underflow at the ends of the double
+# range or through cancellation in the formula of the limits map; reported, not decided.  To enable: decorate with
+# @clause('C18.poi_scale.limits_conditioning', funcs=('grid.poi_scale',)) / @clause('C18.roundtrip.subnormal_width', ...)
+# and yield DOUBTFUL_LIMITS / DOUBTFUL_BOXES from cases().
+#  D1 box of subnormal width (b - a < 1.1e-308), Chebyshev: poi_scale forms 2 / (b - a) = inf -> scaled points +-1 / NaN,
+#     poi_to_ind(ind_to_poi(i)) = [0, 0, 0, 4, 4] for (a, b, n) = (1e-310, 3e-310, 5).
+#  D2 |bound * limit| > 1.8e308: poi_scale(0.0, -1e300, 1e300, [-1e8, 1e8]) = -0.0 is right but 5e299 -> 1e8 (exact 5e7);
+#     poi_scale(0.0, -8.9e307, 8.9e307, [-2, 3]) = 3.0 (exact 0.5).
+#  D3 offset limits on an offset box: (x (a' - b') + a b' - b a') / (a - b) cancels; error about
+#     eps (|a b'| + |b a'|) / (b - a) instead of eps (cond(box) (b' - a') + |a'| + |b'|):
+#     poi_scale(b, a=1e6, b=1e6 + 1e-3, [1e6, 1e6 + 1]) = 1e6 + 0.929 (exact 1e6 + 1), the quarter point -> + 0.197.
+#     C18.poi_scale.kinds accepts this (its tolerance models the rounding of that formula).
+#  D4 |bound * limit| < 2.2e-308: poi_scale(2e-300, 1e-300, 2e-300, [0, 1e-300]) = -0.0 (exact 1e-300).
+DOUBTFUL_BOXES = [(1e-310, 3e-310), (0.0, 1e-308), (-4e-309, 4e-309)]
+DOUBTFUL_LIMITS = [(1e6, 1e6 + 1e-3, [1e6, 1e6 + 1]), (5.0, 5.0000001, [1e6, 1e6 + 1]), (-1e300, 1e300, [-1e8, 1e8]),
+                   (-8.9e307, 8.9e307, [-2.0, 3.0]), (1e-300, 2e-300, [0, 1e-300])]
+
+
+def doubtful_limits_conditioning(a, b, lim):
+    """poi_scale onto given limits within the error a well-conditioned evaluation a' + (x-a)/(b-a) (b'-a') attains:
+    16 eps ((|a| + |b| + |x|) / (b - a) (b' - a') + |a'| + |b'|)."""
+    lo, hi = float(lim[0]), float(lim[1])
+    w = b - a
+    for x in (a, a + w / 4, a + w / 2, b, b + w / 1000):
+        s = float(teneva.poi_scale(np.array([[x]]), a, b, list(lim))[0, 0])
+        ex = float(min(max(Fr(lo) + (Fr(x) - Fr(a)) / (Fr(b) - Fr(a)) * (Fr(hi) - Fr(lo)), Fr(lo)), Fr(hi)))
+        tol = 16 * EPS * ((abs(a) + abs(b) + abs(x)) / w * (hi - lo) + abs(lo) + abs(hi)) + 1e-300
+        if not abs(s - ex) <= tol:
+            return FAIL(f'point {x!r} -> {s!r}, exact {ex!r}, tolerance {tol:.3e}')
+    return PASS
+
+
+def doubtful_subnormal_width(a, b, n, kind):
+    """round trip on boxes of subnormal width"""
+    I = np.arange(n).reshape(-1, 1)
+    J = teneva.poi_to_ind(teneva.ind_to_poi(I, a, b, n, kind), a, b, n, kind)
+    return check(np.array_equal(I, J), f'{J.ravel().tolist()}')
+
+
 def cases(tier, seed):
     big = tier == 'thorough'
     g = gen.rng('C18', seed)
@@ -517,3 +989,78 @@ def cases(tier, seed):
         for ties in (False, True):
             for rep in range(6 if big else 2):
                 yield 'C18.cdf_getter.step', dict(m=m, ties=ties, seed=rs(), as_list=bool(rep % 2))
+
+    # ---- parameter-coverage extension -------------------------------------------------------------------------------
+    # boxes at the edge of the conditioning rule / with a zero bound, a few grid sizes each
+    for a, b in BOXES_EXTRA + (BOXES_EXTRA_MORE if big else []):
+        for kind in ('uni', 'cheb'):
+            for n in (2, 3, 17, 40) + ((5, 33, 64) if big else ()):
+                yield 'C18.ind_to_poi.nodes', dict(a=a, b=b, n=n, kind=kind)
+                yield 'C18.roundtrip.exhaustive', dict(a=a, b=b, n=n, kind=kind)
+                if big or n in (2, 17):
+                    yield 'C18.poi_to_ind.nearest', dict(a=a, b=b, n=n, kind=kind, seed=rs())
+        for lim in ([-2.0, 3.0], [1e-4, 3e-4]):
+            yield 'C18.poi_scale.kinds', dict(a=a, b=b, lim=lim, seed=rs())
+    # limits of tiny / huge magnitude, with an offset, integer limits, a zero limit
+    for k, (a, b) in enumerate(boxes if big else boxes[:4]):
+        for lim in ([1e-8, 2e-8], [-1e8, 1e8], [1e6, 1e6 + 1], [0, 1e-300], [-7, -3], [-1e-300, 1e100])[k % 2 * (not big)::1 + (not big)]:
+            yield 'C18.poi_scale.kinds', dict(a=a, b=b, lim=lim, seed=rs())
+    # large grids
+    large = [(-1.0, 1.0, 257, 'uni'), (-1.0, 1.0, 1000, 'uni'), (-1.0, 1.0, 65537, 'uni'), (0.0, 1.0, 2 ** 17 + 1, 'uni'),
+             (-1.0, 1.0, 2 ** 31 + 1, 'uni'), (0.0, 1.0, 2 ** 32 + 2, 'uni'), (-3.7, 12.1, 2 ** 40 + 1, 'uni'),
+             (1e6, 1e6 + 1, 4097, 'uni'), (1e-300, 2e-300, 2 ** 20 + 1, 'uni'), (-1e300, 1e300, 2 ** 33, 'uni'),
+             (-1.0, 1.0, 257, 'cheb'), (-1.0, 1.0, 1000, 'cheb'), (0.0, 1.0, 65537, 'cheb'),
+             (-1.0, 1.0, 2 ** 20 + 1, 'cheb'), (-3.7, 12.1, 4097, 'cheb'), (1e6, 1e6 + 1, 1025, 'cheb'),
+             (1e-300, 2e-300, 65537, 'cheb'), (-1e300, 1e300, 2 ** 17 + 1, 'cheb')]
+    if big:
+        for a, b in boxes:
+            for n in (100, 255, 256, 257, 511, 512, 513, 1000, 4096, 65536, 2 ** 20, 2 ** 31, 2 ** 31 + 1, 2 ** 36):
+                large += [(a, b, n, 'uni'), (a, b, n, 'cheb')]          # unresolvable combinations return SKIP
+    for a, b, n, kind in large:
+        yield 'C18.large_n.maps', dict(a=a, b=b, n=n, kind=kind, seed=rs())
+    # per-dimension options with distinct values
+    nn = [2, 40, 3, 1025, 7, 2, 64, 9, 5, 300, 4, 11]
+    mixed = [([0, 3, 4], [2, 33, 1000], 1, 'list'), ([0, 3, 4], [2, 33, 1000], 3, 'array'), ([2, 9, 6], [5, 2, 17], 7, 'mixed'),
+             (list(range(6)), nn[:6], 6, 'mixed'), (list(range(12)), nn, 12, 'array'), (list(range(12)), nn, 1, 'list')]
+    if big:
+        mixed += [(list(range(12)), nn, 7, 'mixed'), ([7, 8], [2, 2], 2, 'list'), ([5], [129], 1, 'array'), ([5], [129], 5, 'list'),
+                  (list(range(30)), [2 + (7 * k) % 23 for k in range(30)], 30, 'array'),
+                  (list(range(30)), [2 + (5 * k) % 61 for k in range(30)], 4, 'mixed'),
+                  ([k % 30 for k in range(100)], [2 + (3 * k) % 17 for k in range(100)], 3, 'list')]
+    for kind in ('uni', 'cheb'):
+        for sel, n, m, form in mixed:
+            for rep in range(3 if big else 1):
+                yield 'C18.multidim.mixed', dict(boxes=[list(boxes[k % len(boxes)]) for k in sel], n=n, kind=kind, m=m,
+                                                 form=form, seed=rs() % 1000)
+    # option / index / point dtypes
+    k = 0
+    for a, b in ((-1, 1), (0, 1), (-3, 12), (0, 2 ** 20), (-1000000, -999999)):
+        for n in (2, 100, 256, 300) + ((7, 128, 129, 255, 257, 70000) if big else ()):
+            for d in ((1, 3, 5) if big else (1 + 2 * (k % 2),)):
+                for kind in ('uni', 'cheb'):
+                    yield 'C18.options.dtypes', dict(a=a, b=b, n=n, d=d, kind=kind, seed=rs())
+            k += 1
+    # large flat grids
+    flat = [([70000], 'list'), ([2, 513], 'int32'), ([513, 2], 'list'), ([1, 300, 1], 'int16'), ([2] * 14, 'int64'),
+            ([257, 3, 2], 'list'), ([256, 256], 'int32')]
+    if big:
+        flat += [([300, 300], 'list'), ([2] * 18, 'int32'), ([3] * 10, 'int16'), ([1000, 1000], 'int64'), ([2, 40000, 2], 'list'),
+                 ([1] * 10, 'list'), ([1, 1, 1, 65537], 'int64'), ([5, 4, 3, 2, 1, 2, 3, 4, 5], 'int16'), ([128, 127, 129], 'list')]
+    for n, form in flat:
+        yield 'C18.grid_flat.large', dict(n=n, form=form)
+    # sample / query forms of the empirical CDF
+    forms = [(1, 'int_list', 1.0), (7, 'int_list', 1.0), (12, 'int_array', 1.0), (9, 'float32', 1e30), (9, 'float32', 1e-30),
+             (1, 'all_equal', 1e-300), (5, 'all_equal', 1.0), (6, 'all_equal', 1e300), (10, 'two_values', 1e-300),
+             (10, 'two_values', 1.0), (20, 'ascending', 1e-8), (20, 'descending', 1e300), (2, 'descending', 1.0),
+             (4096, 'random', 1e-300), (1000, 'int_array', 1.0)]
+    if big:
+        forms += [(100000, 'random', 1.0), (100000, 'int_list', 1.0), (65537, 'descending', 1e8), (3, 'two_values', 1e300),
+                  (40, 'float32', 1.0), (2, 'all_equal', -1.0), (33, 'ascending', 1e300), (1, 'random', 1e300)]
+    for m, form, scale in forms:
+        for rep in range(3 if big else 1):
+            yield 'C18.cdf_getter.forms', dict(m=m, form=form, scale=scale, seed=rs())
+    # confidence band (alpha = 0: the default argument)
+    for m in (1, 2, 10, 1000) + ((3, 50, 100000) if big else ()):
+        for alpha in (0, 0.05, 0.5, 1e-6, 1.0) + ((0.01, 0.999, 1e-300) if big else ()):
+            for kind in ('cdf', 'edge', 'rand') if big else (('cdf', 'edge', 'rand')[(m + int(alpha * 10)) % 3],):
+                yield 'C18.cdf_confidence.band', dict(m=m, alpha=alpha, kind=kind, seed=rs())
